@@ -80,6 +80,9 @@ Section Cfg.
     mkD (d_codec d) (d_st d) m (d_pend d) (d_body d) (d_wbuf d) (d_out d) (d_flushed d) (d_started d) (d_fail d).
   Definition set_fail (d : dstate) (f : failure) : dstate :=
     mkD (d_codec d) (d_st d) (d_msgs d) (d_pend d) (d_body d) (d_wbuf d) (d_out d) (d_flushed d) (d_started d) (Some f).
+  Definition set_codec (d : dstate) (c : codec) : dstate :=
+    mkD c (d_st d) (d_msgs d) (d_pend d) (d_body d) (d_wbuf d) (d_out d) (d_flushed d) (d_started d) (d_fail d).
+
   Definition append (d : dstate) (c : codec) (u : wunit) : dstate :=
     mkD c (d_st d) (d_msgs d) (d_pend d) (d_body d) (d_wbuf d + lenN (unit_bytes u)) (d_out d ++ [u])
         (d_flushed d) (d_started d) (d_fail d).
@@ -102,6 +105,12 @@ Section Cfg.
     | _ => set_st d1 next
     end.
 
+  (* poll_response, State::None, Some(DispatcherMessage::Item(req)): the codec context is
+     re-derived from the request's own head (F12 repair), then ExpectCall / ServiceCall *)
+  Definition pop_dispatch (d : dstate) (rest : list dmsg) (j : nat) : dstate :=
+    let c := d_codec d in
+    dispatch (set_codec (set_msgs d rest) (set_request_context c (request_context c (req_of j)))) j.
+
   (* poll_response with State::None: pop the queue until a request is dispatched.
      DispatcherMessage::Error(res): send_error_response(res, BoxBody::new(())); size of () = Sized(0) *)
   Fixpoint settle (fuel : nat) (d : dstate) : dstate :=
@@ -110,7 +119,7 @@ Section Cfg.
     | S f => match d_st d, d_msgs d with
              | SNone, MError s :: rest =>
                  settle f (send_response (set_msgs d rest) None (mkResp s None false []) (BSized 0) SNone)
-             | SNone, MItem j :: rest => dispatch (set_msgs d rest) j
+             | SNone, MItem j :: rest => pop_dispatch d rest j
              | _, _ => d
              end
     end.
@@ -143,7 +152,7 @@ Section Cfg.
         | SNone =>
             match d_msgs d with
             | [] => d                                   (* all messages dealt with *)
-            | MItem j :: rest => tick f (dispatch (set_msgs d rest) j)
+            | MItem j :: rest => tick f (pop_dispatch d rest j)
             | MError _ :: _ => tick f (settle 1 d)
             end
         | SExpect j =>                                  (* ExpectHandler is ready at once *)
@@ -175,9 +184,6 @@ Section Cfg.
     mkD (d_codec d) (d_st d) (d_msgs d) (d_pend d) (d_body d) (d_wbuf d - k) (d_out d) (d_flushed d + k)
         (d_started d) (d_fail d).
 
-  Definition set_codec (d : dstate) (c : codec) : dstate :=
-    mkD c (d_st d) (d_msgs d) (d_pend d) (d_body d) (d_wbuf d) (d_out d) (d_flushed d) (d_started d) (d_fail d).
-
   Definition step (d : dstate) (e : event) : dstate :=
     match d_fail d with
     | Some _ => d                                          (* the connection future has resolved *)
@@ -185,12 +191,15 @@ Section Cfg.
         match e with
         | EvArrive j =>
             let j := N.to_nat j in
-            (* Codec::decode stores the request's context ... *)
+            (* poll_request remembers the context of the response in flight; Codec::decode stores
+               the new request's context ... *)
+            let ctx_in_flight := current_context (d_codec d) in
             let d1 := set_codec d (codec_decode (d_codec d) (req_of j)) in
-            (* ... and poll_request handles it eagerly or queues it *)
+            (* ... the request is handled eagerly, or queued and the context restored (F12 repair) *)
             match d_st d1 with
             | SNone => dispatch d1 j
-            | _ => set_msgs d1 (d_msgs d1 ++ [MItem j])
+            | _ => set_msgs (set_codec d1 (set_request_context (d_codec d1) ctx_in_flight))
+                            (d_msgs d1 ++ [MItem j])
             end
         | EvBad => settle (S (S (length (d_msgs d)))) (set_msgs d (d_msgs d ++ [MError 400]))
         | EvTick =>
